@@ -1,0 +1,127 @@
+//go:build verif
+
+// Verification hooks (build tag "verif"): add-only exports of unexported
+// functions for the /verif harness. Nothing here is compiled without the tag.
+
+package runtime
+
+import (
+	"errors"
+	"io"
+)
+
+// VerifRecorder records every Write/WriteString call as one chunk. When
+// FailAt > 0 the FailAt-th write (1-based) and all later ones fail with Err
+// without recording anything.
+type VerifRecorder struct {
+	Chunks []string
+	FailAt int
+	Err    error
+	Calls  int
+}
+
+func (r *VerifRecorder) fail() bool {
+	r.Calls++
+	return r.FailAt > 0 && r.Calls >= r.FailAt
+}
+
+func (r *VerifRecorder) Write(b []byte) (int, error) {
+	if r.fail() {
+		return 0, r.err()
+	}
+	r.Chunks = append(r.Chunks, string(b))
+	return len(b), nil
+}
+
+func (r *VerifRecorder) WriteString(s string) (int, error) {
+	if r.fail() {
+		return 0, r.err()
+	}
+	r.Chunks = append(r.Chunks, s)
+	return len(s), nil
+}
+
+func (r *VerifRecorder) err() error {
+	if r.Err == nil {
+		return errors.New("verif: write failed")
+	}
+	return r.Err
+}
+
+// VerifEscape calls the named escaper on s writing to w. a and b are the
+// boolean parameters of the escaper, if any.
+func VerifEscape(name string, w *VerifRecorder, s string, a, b bool) (n int, err error) {
+	switch name {
+	case "htmlEscape":
+		err = htmlEscape(w, s)
+	case "htmlNoEntitiesEscape":
+		err = htmlNoEntitiesEscape(w, s)
+	case "attributeEscape":
+		err = attributeEscape(w, s, a, b)
+	case "cssStringEscape":
+		err = cssStringEscape(w, s)
+	case "jsStringEscape":
+		err = jsStringEscape(w, s)
+	case "jsonStringEscape":
+		err = jsonStringEscape(w, s)
+	case "pathEscape":
+		n, err = pathEscape(w, s, a)
+	case "queryEscape":
+		n, err = queryEscape(w, s)
+	case "markdownEscape":
+		err = markdownEscape(w, s, a)
+	case "markdownCodeBlockEscape":
+		err = markdownCodeBlockEscape(w, s, a)
+	case "escapeBytes":
+		err = escapeBytes(w, []byte(s), a)
+	default:
+		panic("verif: unknown escaper " + name)
+	}
+	return n, err
+}
+
+// VerifBytePred evaluates the named byte predicate.
+func VerifBytePred(name string, c byte) bool {
+	switch name {
+	case "prefixWithSpace":
+		return prefixWithSpace(c)
+	case "isHexDigit":
+		return isHexDigit(c)
+	}
+	panic("verif: unknown predicate " + name)
+}
+
+// VerifEnv returns an environment usable by the show functions.
+func VerifEnv(typeof TypeOfFunc, conv Converter) any {
+	if typeof == nil {
+		typeof = typeOfFunc
+	}
+	return &env{typeof: typeof, conv: conv}
+}
+
+// VerifToString calls toString.
+func VerifToString(e any, v any) (string, error) { return toString(e.(*env), v) }
+
+// VerifRenderer wraps a renderer.
+type VerifRenderer struct {
+	r   *renderer
+	env *env
+}
+
+func VerifNewRenderer(out io.Writer, e any) *VerifRenderer {
+	return &VerifRenderer{r: newRenderer(out), env: e.(*env)}
+}
+
+func (v *VerifRenderer) Text(txt []byte, inURL, isSet bool) error { return v.r.Text(txt, inURL, isSet) }
+func (v *VerifRenderer) Show(val any, ctx Context) error        { return v.r.Show(v.env, val, ctx) }
+
+// State returns inURL, query, addAmpersand, removeQuestionMark.
+func (v *VerifRenderer) State() (bool, bool, bool, bool) {
+	return v.r.inURL, v.r.query, v.r.addAmpersand, v.r.removeQuestionMark
+}
+
+// VerifDecodeRenderContext calls decodeRenderContext.
+func VerifDecodeRenderContext(c Context) (uint8, bool, bool) {
+	ctx, inURL, isSet := decodeRenderContext(c)
+	return uint8(ctx), inURL, isSet
+}
